@@ -618,7 +618,9 @@ def check_real_programs_with_ties(h: Harness):
         class Rec(SearchRecorder):
             def register(self, tracker, individual, problem, is_best):
                 rows.append((individual, individual.get_fitness(problem).fitness_components[0], bool(is_best)))
-        problem = SingleObjectiveProblem(lambda p: float(len(repr(p)) % 3), minimize=minimize)
+        import numpy as _np
+        # (every third run: the direction comes out of a numpy comparison -- a numpy bool, truthy like any other)
+        problem = SingleObjectiveProblem(lambda p: float(len(repr(p)) % 3), minimize=_np.bool_(minimize) if trial % 3 == 0 else minimize)
         tracker = SingleObjectiveProgressTracker(problem, SequentialEvaluator(), recorders=[Rec()])
         try:
             algo = rng.choice(["rs", "hc", "gp"])
